@@ -135,4 +135,51 @@ def check(ctx):
         m2, _ = terms.function_term(P, nm.methods["mean"], {"loc": pm[0]}, inline_depth=0)
         ok = nf.equal(v2, nf.sym("variance")) and nf.equal(m2, nf.sym("mean"))
     ctx.ob("C20.c", "Normal: mean/variance parameterisation round-trips", ok, "variance(params_mv(m, v).scale) == v and mean(params_mv(m, v).loc) == m", nm.methods["params_mv"].where)
+    # ---------------- (d) Victor-Purpura dynamic programme and ISI: the documented recurrences / index shifts
+    vp = P.fn("victor_purpura_pair_dist", module="core.math")
+    ctx.touch(vp)
+    loops = [n for n in walk_own(vp.node) if isinstance(n, ast.For)]
+    outer = [lp for lp in loops if any(isinstance(x, ast.For) for x in lp.body)]
+    ok = len(outer) == 1
+    inner = [x for x in outer[0].body if isinstance(x, ast.For)][0] if ok else None
+    if ok:
+        rng = lambda lp: ast.unparse(lp.iter)
+        ok = rng(outer[0]) == f"range(1, t0.numel() + 1)" and rng(inner) == "range(1, t1.numel() + 1)" \
+            and outer[0].target.id == "r" and inner.target.id == "c"
+    ctx.ob("C20.d", "victor_purpura_pair_dist: the table is filled for r in 1..n0, c in 1..n1", ok, "", vp.where)
+    if inner is not None:
+        env = {}
+        b = terms.Builder(None, None, env)
+        vals = {}
+        for st in inner.body:
+            if isinstance(st, ast.Assign) and isinstance(st.targets[0], ast.Name):
+                vals[st.targets[0].id] = b.t(st.value)
+        want = {"c_add_a": "grid[:, r - 1, c] + 1", "c_add_b": "grid[:, r, c - 1] + 1", "c_shift": "grid[:, r - 1, c - 1] + cost * torch.abs(t0[r - 1] - t1[c - 1])"}
+        for k, spec in want.items():
+            okk = k in vals and nf.equal(vals[k], specs.spec_term(spec))
+            ctx.ob("C20.d", f"victor_purpura_pair_dist: {k} = {spec}", okk, nf.show(vals.get(k)) if k in vals else "missing", vp.where)
+        st = [x for x in inner.body if isinstance(x, ast.Assign) and isinstance(x.targets[0], ast.Subscript)]
+        okm = len(st) == 1 and ast.unparse(st[0].targets[0]) == "grid[:, r, c]" and ast.unparse(st[0].value).startswith("torch.stack((c_add_a, c_add_b, c_shift), 0)") \
+            and ast.unparse(st[0].value).endswith(".amin(0)")
+        ctx.ob("C20.d", "victor_purpura_pair_dist: cell = min(insert, delete, shift)", okm, "", vp.where)
+    txt = ast.unparse(vp.node)
+    ok = "grid[:, 0] = torch.arange(0, t0.numel() + 1" in txt and "grid[0, :] = torch.arange(0, t1.numel() + 1" in txt and "return grid[:, -1, -1]" in txt
+    ctx.ob("C20.d", "victor_purpura_pair_dist: boundary rows count insertions / deletions; result is the last cell", ok, "", vp.where)
+    ok = "if cost == 0.0:\n            return torch.tensor([float(abs(t0.numel() - t1.numel()))]" in txt and \
+        "elif cost == float('inf'):\n            return torch.tensor([float(t0.numel() + t1.numel())]" in txt
+    ctx.ob("C20.d", "victor_purpura_pair_dist: cost 0 -> |n0 - n1|, cost inf -> n0 + n1 (the documented limits)", ok, "", vp.where)
+    isi = P.fn("isi", module="core.math")
+    ctx.touch(isi)
+    txt = ast.unparse(isi.node)
+    checks = {
+        "pads one leading sentinel event": "F.pad(spikes, (1, 0), mode='constant', value=True)",
+        "event times = (index - 1) * step_time (undoing the sentinel shift)": "(nz - 1) * step_time",
+        "drops the sentinel of every train": "padding_value=float('nan'))[:, 1:]",
+        "intervals = successive differences along time": "torch.diff(intervals, dim=-1)",
+    }
+    for what, frag in checks.items():
+        ctx.ob("C20.d", f"isi: {what}", frag in txt, "" if frag in txt else f"expected `{frag}`", isi.where)
+    rets = sorted([r for r in walk_own(isi.node) if isinstance(r, ast.Return)], key=lambda r: r.lineno)
+    ok = len(rets) == 2 and "'... t -> t ...'" in ast.unparse(rets[0]) and "'t ... -> ... t'" in txt
+    ctx.ob("C20.d", "isi: time-first input is moved to time-last and the result back to time-first", ok, "", isi.where)
     ctx.assume("torch.special.xlogy / lgamma / erf / gammaincc / expm1 implement their documented functions")
